@@ -1159,6 +1159,17 @@ def _run(ck: Check):
     ck.extra["configurations_checked"] = done
     probe_eigh_degenerate(ck, rng)
     ck.extra["tensor_constructors_without_dtype_or_device"] = scan_constructors()
+    ck.extra["leaves_not_differentiated_and_why"] = [
+        "sampling times of real tree models, alignment, weights, covariates: data (not Parameters)",
+        "FakeTreeModel sampling-time entries: differentiated when untied and positive for constant / exponential / "
+        "skyride / skygrid; NOT for piecewise-linear and soft skygrid, which pass them through torch.unique under "
+        "no_grad by design (upstream comment; F23 repair) - only FakeTreeModel exposes them as parameter entries",
+        "entry 0 of the BDSK rate-shift times (the origin of the time axis, always 0) and bdsk_epochs origin/times "
+        "(fixed so that tips can sit exactly ON the epoch boundaries)",
+        "parameters held exactly at a special value (fixed list of each configuration); substitution parameters of "
+        "eigh-based models at a MEASURED repeated eigenvalue (see substitution_model_special_point_cells)",
+        "python-number arguments of distribution wrappers (no tensor to differentiate)",
+    ]
     _finish(ck, out, fam_seen, ok, broken, st_ok)
 
 
